@@ -561,6 +561,7 @@ impl H {
         sim.install_clock_here();
         let disk = InMemory::new();
         let store = SimStore::new(sim.clone(), disk);
+        store.set_response_delay(simcore::store::seeded_response_delay(case.seed));
         let w = Wrapper::build(case.wrapper, store.clone(), case.cache);
         let s = w.store();
         let mut model: Model = BTreeMap::new();
